@@ -39,6 +39,7 @@ def step (st : DState) (line : String) : DState × String :=
   | "timer" :: args => let (v, o) := timerHandle st.tw args; ({ st with tw := v }, o)
   | "local" :: args => let (v, o) := localHandle st.loc args; ({ st with loc := v }, o)
   | "reg" :: "gathertext" :: args => (st, gatherTextHandle st.reg args)
+  | "reg" :: "raw" :: args => (st, rawHandle args)
   | "reg" :: args => let (v, o) := regHandle st.reg args; ({ st with reg := v }, o)
   | "vec" :: args => let (v, o) := vecHandle st.vec args; ({ st with vec := v }, o)
   | _ => (st, "bad-op")
